@@ -71,7 +71,7 @@ def render(prog, rng, lang="CPP", comments=False):
             top = stack[-1] if stack else "file"
             t = ("int m%d;" % n) if top == "cls" else (["a = a + %d;", "g(a, %d);", "a += %d;"][n % 3] % n)
         elif k == "case":
-            t = "case %d:" % n
+            t = ["case %d:", "case 1 << %d:", "case (%d):"][n % 3] % n
         else:
             t = "/* ? */"
         ind = rng.choice(["", " ", "  ", "\t", "    ", "\t\t", "   \t", "        ", "      "])
